@@ -578,6 +578,18 @@ func (cfg *Config) handshakeMaintenance(ctx context.Context, hello *tls.ClientHe
 			// This can happen if the certificate was cleaned up by the storage cleaner, but still
 			// remains in the in-memory cache.
 			if !cfg.storageHasCertResourcesAnyIssuer(ctx, cert.Names[0]) {
+				// Make sure a certificate for this name is (still) allowed to be obtained on-demand
+				name, err := cfg.getNameFromClientHello(hello)
+				if err != nil {
+					return Certificate{}, err
+				}
+				if err := cfg.checkIfCertShouldBeObtained(ctx, name, true); err != nil {
+					// if not, remove from cache, like when a renewal is not allowed
+					cfg.certCache.mu.Lock()
+					cfg.certCache.removeCertificate(cert)
+					cfg.certCache.mu.Unlock()
+					return Certificate{}, fmt.Errorf("certificate is not allowed for server name %s: %w", name, err)
+				}
 				logger.Debug("certificate not found on disk; obtaining new certificate")
 				return cfg.obtainOnDemandCertificate(ctx, hello)
 			}
